@@ -211,6 +211,42 @@ def run_shard(shard, tier, seed, acc) -> None:
                     acc.outcome("roundtrip-ok-overlap")
 
             explorer.explore(body, 1, on_exec)
+    if m == "nonce-dc" and part == 0:
+        # two async UNPROTECTS in flight at once on one shared cache that holds nothing yet (both need the DC), blobs of two positions of
+        # one L0 in both orders: each call returns its own plaintext however the two DC conversations interleave
+        import dpapi_ng
+
+        from mc import explorer, overlap
+        from ref import cms as _cms
+
+        sid_u = sid_shapes("quick")[1]
+        d_u = seams.Drbg(("C01ovl-unprot", seed))
+        pts_u = [plaintext(seed, 17), plaintext(seed, 18)]
+        for pa, pb in (((3, 5), (3, 9)), ((3, 9), (3, 5)), ((2, 31), (3, 0)), ((3, 0), (2, 31)), ((3, 9), (3, 9)), ((0, 3), (5, 0)), ((4, 31), (4, 30))):
+            blobs_u = [_cms.ref_encrypt(rk, sid_u, pts_u[i], (L0,) + pos, cek=d_u.bytes(32), gcm_nonce_=d_u.bytes(12), key_nonce=d_u.bytes(32)) for i, pos in enumerate((pa, pb))]
+            now_u = (L0, 6, 1)
+
+            def body_u(ch, blobs_u=blobs_u):
+                dc = refdc.DC([rk], now=now_u)
+                cache_u = dpapi_ng.KeyCache()
+
+                async def un(i):
+                    back = await dpapi_ng.async_ncrypt_unprotect_secret(blobs_u[i], cache=cache_u, server="dc", username="u", password="p", auth_protocol="ntlm")
+                    return bytes(back) == pts_u[i]
+
+                with seams.clock((now_u[0] * 1024 + now_u[1] * 32 + now_u[2]) * B + 99):
+                    return overlap.run(ch, dc, [lambda: un(0), lambda: un(1)], [secctx.scripted_client(_ctx)])
+
+            def on_exec_u(ch, r, pa=pa, pb=pb):
+                nonlocal n
+                status, res, order = r
+                n += 1
+                if status != "ok" or any(st != "ok" or v is not True for st, v in res):
+                    acc.violate("overlap.unprotect", ["shard", shard, tier], {"positions": [list(pa), list(pb)], "status": status, "results": repr(res)[:300], "schedule": ch.choices}, size=10**5)
+                else:
+                    acc.outcome("roundtrip-ok-overlap")
+
+            explorer.explore(body_u, 1 if tier == "quick" else 2, on_exec_u)
     if m.startswith("nonce-dc") and part == 0:
         # every ordered pair of 12 clock positions (adjacent L1 intervals, L2 = 31, interval ends) on a fresh seed-only cache: the second
         # call is served from what the first one fetched whenever that covers it (a client clock behind the DC's, or moving backwards)
